@@ -174,7 +174,7 @@ def rand_stmt(rng, labels, allow_pcr=True):
     if r < 0.68:
         return "FDB %s" % ",".join("$%04X" % rng.randrange(65536) for _ in range(rng.choice([1, 2, 4])))
     if r < 0.72:
-        return 'FCC "%s"' % "".join(rng.choice("AB c;d,e  ") for _ in range(rng.randrange(0, 9)))
+        return 'FCC "%s"' % "".join(rng.choice("AB c;d,e  \t") for _ in range(rng.randrange(0, 9)))
     mn = rng.choice(IDX_MN + ["LDB", "ORA", "SUBD", "CMPX", "STA", "STX", "TST", "CLR", "INC"])
     v = rng.choice(VALUES[:18] + [0x0E00, 0x1234])
     form = rng.choice(["#%d", "$%04X", "<$%02X", ">$%04X", "%d,X", "%d,Y", ",U", ",S++", ",--X", "A,X", "D,Y", "[%d,X]", "[$%04X]", "-%d,X", "[-%d,U]", "[,Y]", "[B,S]"])
@@ -466,9 +466,11 @@ def data_cases(rng, tier):
     for _ in range(500 if q else 10000):
         d = rng.choice(delims)
         n = rng.choice([0, 1, 2, 3, 8, 32, 100, 254, 255, rng.randrange(256)])
-        alphabet = rng.choice([PRINTABLE, " ;A", "  ", PRINTABLE, ";,\"'/ "])
+        # control characters (a TAB in a string is plausible) are characters too; no newline or carriage return
+        alphabet = rng.choice([PRINTABLE, " ;A", "  ", PRINTABLE, ";,\"'/ ", "A\tB", "\t\x01\x0f\x7f ", PRINTABLE + "\t"])
         s = "".join(rng.choice(alphabet) for _ in range(n)).replace(d, "x" if d != "x" else "y")
-        tail = rng.choice(["", " ; comment", " trailing words", "   ", " ;"])
+        # the string ends at the FIRST closing delimiter: what follows may contain that character again
+        tail = rng.choice(["", " ; comment", " trailing words", "   ", " ;", " ; say %sHI%s" % (d, d), " %s" % d])
         lb = rng.choice(["", "MSG"])
         yield (["%s FCC %s%s%s%s\n" % (lb, d, s, d, tail)], {"kind": "fcc", "stmt": 0, "bytes": s.encode("latin-1").hex().upper(), "len": n, "delim": d})
     for bad in ['"ABC', "/AB", '"', "", '"AB\' x']:
